@@ -544,6 +544,7 @@ pub fn run(ctx: &Ctx) -> Report {
         let v: Value = serde_json::from_slice(&std::fs::read(path).expect("replay")).expect("json");
         let r = &v["replay"];
         match r["family"].as_str() {
+            Some(f) if f.starts_with("node-") => crate::nodex::c01_node_level(ctx, &mut rep),
             Some("honest") => {
                 let h = Honest {
                     seed: r["seed"].as_u64().unwrap_or(0),
@@ -664,10 +665,12 @@ pub fn run(ctx: &Ctx) -> Report {
             }
         }
     }
+    let _ = hex(&[]);
+    // node level: the dialed identity check and error propagation live in the TCP connection task
+    crate::nodex::c01_node_level(ctx, &mut rep);
     for p in crate::common::take_panics() {
         rep.violation(format!("C01/panic/{}", panic_site(&p)), p, json!({"kind":"stray"}));
     }
-    let _ = hex(&[]);
     rep.floor("honest_sessions", 10);
     rep.floor("tampered_sessions", 100);
     rep.floor("forgeries_rejected", 4);
